@@ -12,6 +12,9 @@ Two kinds of cases:
       obs-text allowed): bytes(Headers(fields)) is parsed by (a) mitmproxy's http1 _read_headers and (b) an independent
       header-block parser written here; both must give back exactly the fields.
 """
+import contextlib
+import signal
+
 from hypothesis import strategies as st
 
 PID = "C35"
@@ -25,7 +28,7 @@ ASSUMPTIONS = ["names are ASCII tokens (case-insensitivity is ASCII-only)",
                "equality is only asserted for equal field lists and for lists differing in values/order/length"]
 LEVEL_TEXT = "randomised operation histories checked step by step against a relational specification"
 LEVEL_NOTE = "specification written from the property statement and the Headers docstring"
-QUICK_N, THOROUGH_N = 120_000, 3_000_000
+QUICK_N, THOROUGH_N = 64_000, 3_000_000
 
 NAMES = ["A", "a", "B", "b", "Set-Cookie", "set-cookie", "SET-COOKIE", "x-y"]
 VALUES = ["1", "2", "3", "", "x, y", "a=b; Path=/", "\xe9", "\udcff", "v v", "0"]
@@ -158,9 +161,38 @@ def _call(fn, *a):
         return ("KeyError",)
 
 
+class _Hang(BaseException):
+    pass
+
+
+@contextlib.contextmanager
+def _deadline(cpu_seconds):
+    """the mixin methods of MutableMapping loop over the collection (clear() = popitem() until KeyError): a broken
+    __delitem__/__iter__ makes them spin forever.  Turn that into a reported failure instead of a stuck campaign.
+    CPU time of this process (ITIMER_VIRTUAL), not wall clock, so machine load cannot trigger it."""
+    def on_alarm(signum, frame):
+        raise _Hang()
+    old_handler = signal.signal(signal.SIGVTALRM, on_alarm)
+    signal.setitimer(signal.ITIMER_VIRTUAL, cpu_seconds)
+    try:
+        yield
+    finally:
+        signal.setitimer(signal.ITIMER_VIRTUAL, 0)
+        signal.signal(signal.SIGVTALRM, old_handler)
+
+
 def check_case(case, ctx):
     if case[0] == "ser":
         return _check_ser(case[1], ctx)
+    from mitmproxy.http import Headers  # noqa: F401  (import cost must not count against the deadline)
+    try:
+        with _deadline(10.0):
+            _check_ops(case, ctx)
+    except _Hang:
+        ctx.fail("hang", "an operation of the history did not terminate within 10 s of CPU time")
+
+
+def _check_ops(case, ctx):
     from mitmproxy.http import Headers
     _, init, ops = case
     h = Headers([(NAMES[n].encode(), to_b(VALUES[v])) for n, v in init])
